@@ -13,8 +13,6 @@ package verify
 //@   ensures[len] len(r) == len(a) && r != nil
 //@   ensures[and] forall i :: 0 <= i && i < len(a) ==> r[i] == a[i] & b[i]
 //@   fresh r
-//@   loop 0: invariant 0 <= i && i <= len(a) && len(data) == len(a)
-//@   loop 0: invariant forall j :: 0 <= j && j < i ==> data[j] == a[j] & b[j]
 
 // SGX components of the platform (from the PCK certificate) against a level
 //@ opaque define cpuGE(p, comps) = len(p) == len(comps) && (forall i :: 0 <= i && i < len(p) ==> p[i] >= comps[i].Svn)
@@ -506,10 +504,10 @@ package verify
 //@   ensures[exact] err == nil && r != nil ==> *r == poolPrefix(addr(rot), nBundles(rot))
 //@   ensures[every-bundle-has-certs] err == nil ==> (forall k :: 0 <= k && k < nPaths(rot) ==> pemHasCerts(fileBytes(rot.CabundlePaths[k])))
 //@ |     && (forall k :: 0 <= k && k < len(rot.Cabundles) ==> pemHasCerts(strbytes(rot.Cabundles[k])))
-//@   loop 0: invariant result != nil && fresh(result) && *result == poolPrefix(addr(rot), rangeindex + 1)
-//@   loop 0: invariant forall k :: 0 <= k && k <= rangeindex ==> pemHasCerts(fileBytes(rot.CabundlePaths[k]))
-//@   loop 1: invariant result != nil && fresh(result) && *result == poolPrefix(addr(rot), nPaths(rot) + rangeindex + 1)
-//@   loop 1: invariant forall k :: 0 <= k && k <= rangeindex ==> pemHasCerts(strbytes(rot.Cabundles[k]))
+//@   loop 0: invariant resultof("x509.NewCertPool") != nil && fresh(resultof("x509.NewCertPool")) && *resultof("x509.NewCertPool") == poolPrefix(addr(rot), loopindex)
+//@   loop 0: invariant forall k :: 0 <= k && k < loopindex ==> pemHasCerts(fileBytes(rot.CabundlePaths[k]))
+//@   loop 1: invariant resultof("x509.NewCertPool") != nil && fresh(resultof("x509.NewCertPool")) && *resultof("x509.NewCertPool") == poolPrefix(addr(rot), nPaths(rot) + loopindex)
+//@   loop 1: invariant forall k :: 0 <= k && k < loopindex ==> pemHasCerts(strbytes(rot.Cabundles[k]))
 
 //@ func RootOfTrustToOptions(rot) (r, err)
 //@   records rootoftrust
